@@ -92,6 +92,9 @@ def enabled_stages(path):
     return on
 
 
+MUTATORS_ALL = {"update", "add", "discard", "remove", "difference_update", "intersection_update", "symmetric_difference_update", "clear", "pop", "__ior__", "__iand__", "__isub__", "__ixor__"}
+
+
 def stage_guard_rules(rep, cl, io, li, f_io):
     """Each stage runs exactly when its own object is present (objects created under the same option count as one)."""
     for bp in li.body_paths:
@@ -282,6 +285,8 @@ def c12(ctx, rep):
     from . import secret_rmi, secret_struct, checks_secret, checks_ip, checks_rx
     from .ipmodel import IpModel
     secret_rmi.check_rmi(ctx, rep, "C12")
+    from . import secret_flow as _sf
+    _sf.check_anonymize_value(ctx, rep, "C12")  # a reserved (non-secret) token is left alone whatever was seen before
     _pfx, _grps, _parts = secret_struct.check_table(ctx, rep, "C12", want_catchalls=False)
     from . import refpatterns
     refpatterns.check(ctx, rep, "C12", _pfx, _grps, _parts)  # incl. secret-group-not-wider: text after the secret stays in place
@@ -291,7 +296,7 @@ def c12(ctx, rep):
     checks_secret._enclosing_lists(ctx, rep, "C12")
 
 
-def import_clauses(ctx, rep, cl, pid, fnc, keep, **kw):
+def import_clauses(ctx, rep, cl, pid, fnc, keep, required=True, **kw):
     """Re-run another property's check on a scratch report and adopt the named clauses (prefix match) under this property's name."""
     from .report import Report
     sub = Report(pid, quiet=True)
@@ -302,7 +307,7 @@ def import_clauses(ctx, rep, cl, pid, fnc, keep, **kw):
             n += 1
             tail = o["clause"].split(".", 1)[1]
             rep.ob(cl + "." + tail, o["construct"], o["ok"], o["detail"], o["where"], o.get("witness"), key="%s.%s|%s" % (cl, tail, o["construct"]))
-    rep.ob(cl + ".imported-" + pid, pid, n >= 1, "clauses adopted from %s: %d (%s)" % (pid, n, ", ".join(keep)), "", nontrivial=False)
+    rep.ob(cl + ".imported-" + pid, pid, n >= 1 or not required, "clauses adopted from %s: %d (%s)" % (pid, n, ", ".join(keep)), "", nontrivial=False)
 
 
 def _word_and_as_shapes(ctx, rep, cl):
@@ -430,6 +435,19 @@ def c15(ctx, rep):
     paths = [x for x in fp.paths if x.feasible() and x.kind != "raise"]
     rep.stat("constructor_paths", len(paths))
     independent_wiring(ctx, rep, "C15")
+    # the reserved-word set is built from the built-in list and the user's reserved words only (no other feature's option shapes it)
+    for path in paths:
+        for e, ls in walk_effects(path.effects):
+            t_ = None
+            if e.kind == "store_attr" and e.a == SELF and e.b == "reserved_words":
+                t_ = e.c
+            elif e.kind == "call" and e.a[1][0] == "attr" and e.a[1][1] == ("attr", SELF, "reserved_words") and e.a[1][2] in MUTATORS_ALL:
+                t_ = ("tuple", tuple(e.a[2]) + tuple(v for k, v in e.a[3]))
+            if t_ is None:
+                continue
+            foreign_ = sorted({s_[1] for s_ in subterms(t_) if s_[0] == "param" and s_[1] not in ("self", "reserved_words")} | {"self." + s_[2] for s_ in subterms(t_) if s_[0] == "attr" and s_[1] == SELF and s_[2] != "reserved_words"})
+            rep.ob("C15.reserved-set-feature-local", "FileAnonymizer.__init__", not foreign_, "self.reserved_words is shaped by %s (%s): whether the secret stage leaves a value alone would depend on another feature's option" % (foreign_, show(t_)[:80]), W(f_fa, e.node),
+                   key="C15.reserved-set-feature-local|FileAnonymizer.__init__", nontrivial=False)
     from . import checks_rx as _rx, checks_secret as _sec
     import_clauses(ctx, rep, "C15", "C11", _rx.c11, ("C11.wiring",))
     import_clauses(ctx, rep, "C15", "C10", _sec.c10, ("C10.wiring",))
@@ -738,6 +756,7 @@ def c16(ctx, rep):
     from .ipmodel import IpModel
     _private_merge(ctx, IpModel(ctx), rep, "C16")
     stream_open_rule(ctx, rep, "C16")
+    import_clauses(ctx, rep, "C16", "C19", c19, ("C19.list-options", "C19.binding"))  # the command line hands the options on as the API takes them
     # nothing on the file path of the work is remembered across runs (a memoised "directory exists" is wrong after the directory was removed)
     from .checks_misc import stage_state_rule
     stage_state_rule(ctx, rep, "C16", ["anonymize_files", "FileAnonymizer", "_mkdirs"])
@@ -1092,6 +1111,7 @@ def c19(ctx, rep):
     _private_merge(ctx, IpModel(ctx), rep, "C19")
     from .checks_ip import option_spec_rule
     option_spec_rule(ctx, rep, "C19")
+    independent_wiring(ctx, rep, "C19")  # an option switches its own feature on and nothing else (e.g. host bits never switch address anonymization off)
     # log level wiring
     lvl = opts.get("--log-level")
     rep.ob("C19.log-level-choices", "--log-level", True, "log level choices %s (informational: the property does not speak about log levels)" % (lvl["choices"] if lvl else None,), lvl["where"] if lvl else "", nontrivial=False)
